@@ -329,3 +329,31 @@ Definition chain_wf_b (g : graph) (d : list line) : bool :=
   && forallb (line_ok_b g) d
   && nodup_b (flat_map lels d)
   && forallb (fun n => negb (is_line_node n) || existsb (Z.eqb (uid n)) (flat_map lels d)) g.
+
+(* ---------------------------------------------------------------- checkable hypotheses of the theorems *)
+(* common bands sorted, pairwise disjoint, inside [f_min, f_max] *)
+Fixpoint sorted_from_b (prev : Q) (common : list band) (f_max : Q) : bool :=
+  match common with
+  | [] => Qle_bool prev f_max
+  | (lo, hi) :: t => Qltb prev lo && Qle_bool lo hi && sorted_from_b hi t f_max
+  end.
+Definition sorted_in_b (f_min f_max : Q) (common : list band) : bool :=
+  match common with
+  | [] => false
+  | (lo, hi) :: t => Qle_bool f_min lo && Qle_bool lo hi && sorted_from_b hi t f_max
+  end.
+(* facing edges of consecutive bands fall into different slots *)
+Fixpoint slot_apart_b (grid : Q) (common : list band) : bool :=
+  match common with
+  | b1 :: ((b2 :: _) as t) => (frequency_to_n (snd b1) grid <? frequency_to_n (fst b2) grid) && slot_apart_b grid t
+  | _ => true
+  end.
+Definition common_ok_b (g : graph) (si : band) (f_min f_max : Q) (els : list Z) : bool :=
+  sorted_in_b f_min f_max (elements_common_range g els si) && slot_apart_b default_grid (elements_common_range g els si).
+(* all hypotheses of build_oms_list_ok on a concrete network *)
+Definition net_hyps_b (g : graph) (si : band) (d : list line) : bool :=
+  chain_wf_b g d && negb (Nat.eqb (length d) 0) &&
+  match find_network_freq_range g with
+  | Ok (f_min, f_max) => forallb (fun l => common_ok_b g si f_min f_max (line_path l)) d
+  | Err _ => false
+  end.
